@@ -137,6 +137,12 @@ def check_c06(rr: dict, w, fkind: str) -> list[dict]:
             by_file[rel] = by_file.get(rel, "") + t
     for rel, text in by_file.items():
         try:
+            import stat as _stat
+            if not _stat.S_ISREG(os.stat(os.path.join(w.sandbox, rel)).st_mode):
+                continue        # a device keeps nothing to read back; open/close bookkeeping above still applies
+        except OSError:
+            pass
+        try:
             with open(os.path.join(w.sandbox, rel), "r", encoding="utf-8") as f:
                 disk = f.read()
         except OSError as e:
